@@ -17,6 +17,7 @@ mod model;
 mod plans;
 mod scen_client;
 mod scen_disk;
+mod scen_frame;
 mod scen_wire;
 mod wire;
 
